@@ -663,17 +663,19 @@ class Gen:
         raise TrErr(f'forwarding function `{name}` not found')
 
     def check_pin(self, key, actual):
+        """differences are COLLECTED (self.problems) so that one run names every member that changed"""
         if key not in PINS:
-            raise TrErr(f'{key}: no expected text is stored for this item (new member?) — current text: {actual[:200]}')
-        if PINS[key] != actual:
+            self.problems.append(f'{key}: no expected text is stored for this item (new member?) — current text: {actual[:200]}')
+        elif PINS[key] != actual:
             a, b = PINS[key].split(' '), actual.split(' ')
             k = 0
             while k < min(len(a), len(b)) and a[k] == b[k]:
                 k += 1
-            raise TrErr(f'{key}: the source text differs from the pinned text at token {k}: expected `'
-                        + ' '.join(a[k:k + 12]) + '`, found `' + ' '.join(b[k:k + 12]) + '`')
+            self.problems.append(f'{key}: the source text differs from the pinned text at token {k}: expected `'
+                                 + ' '.join(a[k:k + 12]) + '`, found `' + ' '.join(b[k:k + 12]) + '`')
 
     def run(self):
+        self.problems = []
         self.read()
         for key in list(self.pins):
             self.check_pin(key, self.pins[key])
@@ -683,11 +685,12 @@ class Gen:
             known = {s[0] for s in table}
             for n in items:
                 if n not in known:
-                    raise TrErr(f'{cls}::{n}: member/function not in the table of tools/gen_base.py (new in the source?)')
+                    self.problems.append(f'{cls}::{n}: member/function not in the table of tools/gen_base.py (new in the source?)')
             for s in table:
                 n, mode = s[0], s[1]
                 if n not in items:
-                    raise TrErr(f'{cls}::{n}: listed in the table of tools/gen_base.py but no longer in the source')
+                    self.problems.append(f'{cls}::{n}: listed in the table of tools/gen_base.py but no longer in the source')
+                    continue
                 head, body = items[n]
                 where = f'{cls}::{n}'
                 self.pins[where + ' [signature]'] = text(head)
@@ -696,19 +699,25 @@ class Gen:
                     self.pins[where + ' [body]'] = text(body) if body is not None else '<no body>'
                     self.check_pin(where + ' [body]', self.pins[where + ' [body]'])
                 if 'T' in mode:
-                    if body is None:
-                        raise TrErr(f'{where}: no body to translate')
                     b = Body(self, where, s, scope)
                     if not b.static:
                         b.assigned.add('self')
                         b.env['self'] = 'G'
-                    lines = b.block(body, '  ')
-                    if b.result == 'self' and not b.self_written:
-                        raise TrErr(f'{where}: in-place member that does not write derived().coeffs()')
+                    try:
+                        if body is None:
+                            raise TrErr(f'{where}: no body to translate')
+                        lines = b.block(body, '  ')
+                        if b.result == 'self' and not b.self_written:
+                            raise TrErr(f'{where}: in-place member that does not write derived().coeffs()')
+                    except TrErr as e:
+                        self.problems.append(str(e))
+                        continue
                     rty = 'G' if b.result == 'self' else b.result
                     ps = ([] if b.static else [('self', 'G')]) + list(b.params)
                     hdr = f'def {b.lean} (I : LieModel α)' + ''.join(f' ({p} : {LEAN_TY[t]})' for p, t in ps) + f' : {LEAN_TY[rty]} :='
                     defs[n] = (hdr + '\n' + '\n'.join(lines) + '\n', b.deps, mode)
+        if self.problems:
+            raise TrErr(f'{len(self.problems)} difference(s):\n    ' + '\n    '.join(self.problems))
         # dependency order
         done, visiting = set(), []
 
